@@ -109,7 +109,7 @@ impl Property for C17 {
         "C17"
     }
     fn rule(&self) -> String {
-        "case = a generated unit of 8..40 messages (two thirds of the units keep every line under a quarter block, one third has head and continuation lines of up to 3 blocks; messages span several blocks either way; one case in ten forces newlines onto the last byte of blocks) repeated k1 < k2 < k3 times with advancing timestamps (k3 up to 64 quick / 512 thorough, x4 at 64 KiB) x block size 256..4096|65536 x container plain/gz/bz2/lz4, printed from start to end with --summary. oracle (metamorphic + absolute): the per-file high-water marks `blocks high`, `lines high`, `syslines high` of the largest file must not exceed those of the middle file by more than a constant (2 blocks / the lines+messages of 2 blocks) and must stay under a bound computed from the generated parameters only (ceil(max message/bs)+8 blocks), never from the file size; with -a in the middle of a plain file the bound gains (2*log2(blocks)+8) x (blocks per message + 1). No growth is tolerated since the fixes 5189d6da/c8987618 (formerly known findings F8, F19, F20). non-trivial = largest file >= 300 blocks and >= 3x the middle file; distinct = hash(case).".into()
+        "case = a generated unit of 8..40 messages (two thirds of the units keep every line under a quarter block, one third has head and continuation lines of up to 3 blocks; messages span several blocks either way; one case in ten forces newlines onto the last byte of blocks) repeated k1 < k2 < k3 times with advancing timestamps (k3 up to 128 quick / 512 thorough, x4 at 64 KiB) x block size 256..4096|65536 x container plain/gz/bz2/lz4, printed from start to end with --summary. oracle (metamorphic + absolute): the per-file high-water marks `blocks high`, `lines high`, `syslines high` of the largest file must not exceed those of the middle file by more than a constant (2 blocks / the lines+messages of 2 blocks, plus what 8 messages in flight between the file thread and the printing thread can hold) and must stay under a bound computed from the generated parameters only (9 x ceil(max message/bs) + 8 blocks), never from the file size; with -a in the middle of a plain file the bound gains (2*log2(blocks)+8) x (blocks per message + 1). No growth is tolerated since the fixes 5189d6da/c8987618 (formerly known findings F8, F19, F20). non-trivial = largest file >= 300 blocks and >= 3x the middle file; distinct = hash(case).".into()
     }
     fn assumptions(&self) -> Vec<String> {
         vec!["high-water marks are those reported by --summary".into(), "constants calibrated on the unchanged tree with margin (see DESIGN.md C17)".into()]
@@ -125,7 +125,7 @@ impl Property for C17 {
         ]
     }
     fn strategy(&self, tier: Tier) -> BoxedStrategy<Case> {
-        let kmax = tier.pick(64u16, 512);
+        let kmax = tier.pick(128u16, 512);
         let bs = prop_oneof![3 => 256u64..600, 2 => 600u64..4096, 1 => Just(65536u64)];
         bs.prop_flat_map(move |bs| {
             // most units keep every line below a quarter of the block; a third have lines of up to 3 blocks
@@ -207,7 +207,11 @@ impl Property for C17 {
         let with_search = case.after_frac.is_some();
         // each probe of the binary search may read one whole message (msg_blocks blocks) and its neighbour
         let log_term = if with_search { (2 * (64 - blocks_of(sz3).leading_zeros() as u64) + 8) * (msg_blocks + 1) } else { 0 };
-        let abs_blocks = msg_blocks + 8 + log_term;
+        // timing allowance: the worker runs ahead of the printing thread by the channel depth (5) plus the messages in
+        // either thread's hands; what those messages hold cannot be released yet. 8 messages, whatever the file size.
+        const IN_FLIGHT: u64 = 8;
+        let max_lines_per_msg: u64 = case.unit.iter().map(|(_, c)| 1 + c.len() as u64).max().unwrap_or(1);
+        let abs_blocks = (IN_FLIGHT + 1) * msg_blocks + 8 + log_term;
         let ctx = format!(
             "container={} bs={} unit_msgs={} max_msg={}B reps={:?} sizes={:?} blocks_high={:?} lines_high={:?} syslines_high={:?} -a={:?}",
             codec.kind(),
@@ -226,12 +230,13 @@ impl Property for C17 {
         let added_blocks = blocks_of(sz3).saturating_sub(blocks_of(sz2));
         let added_lines = unit_lines * (k3 as u64 - k2 as u64);
         let lines_per_block = |h: &Hw| if h.blocks_high > 0 { h.lines_high / h.blocks_high.max(1) + 1 } else { 1 };
-        let slack_lines = (2 + log_term) * lines_per_block(&h2).max(8).min(bs + 1);
+        let slack_lines = (2 + log_term) * lines_per_block(&h2).max(8).min(bs + 1) + IN_FLIGHT * max_lines_per_msg;
+        let slack_blocks = 2 + log_term + IN_FLIGHT * msg_blocks;
         let grow_b = h3.blocks_high.saturating_sub(h2.blocks_high);
         let grow_l = h3.lines_high.saturating_sub(h2.lines_high);
         let grow_s = h3.syslines_high.saturating_sub(h2.syslines_high);
         let big_enough = sz2 > 2 * abs_blocks * bs;
-        if grow_b > 2 + log_term && h3.blocks_high > abs_blocks {
+        if grow_b > slack_blocks && h3.blocks_high > abs_blocks {
             return Outcome::fail("blocks-grow", format!("blocks high grows with file size ({} of {} added blocks retained): {}", grow_b, added_blocks, ctx));
         }
         if big_enough && grow_l > slack_lines {
